@@ -179,19 +179,20 @@ contract(U + "StmtBase.tofortran",
     returns="str",
     requires={"free_form": "isfix is None or not isfix"},
     ensures={
-        "plain": "implies(self.item is None or ((self.item.label is None or self.item.label == 0) and not given(self.item.name)), result == tab + str(self))",
+        "plain": "implies(self.item is None or ((self.item.label is None or self.item.label == 0) and not given(self.item.name)), squeeze(result) == squeeze(tab + str(self)))",
         "label_then_text": "implies(self.item is not None and self.item.label is not None and self.item.label != 0 and not given(self.item.name), "
-                           "result == str(self.item.label) + (tab[len(str(self.item.label)):] if tab[len(str(self.item.label)):] != '' else ' ') + str(self))",
+                           "squeeze(result) == squeeze(str(self.item.label) + (tab[len(str(self.item.label)):] if tab[len(str(self.item.label)):] != '' else ' ') + str(self)))",
         "name_colon_text": "implies(self.item is not None and (self.item.label is None or self.item.label == 0) and given(self.item.name), "
-                           "result == tab + self.item.name + ':' + str(self))",
+                           "squeeze(result) == squeeze(tab + self.item.name + ':' + str(self)))",
         "label_name_text": "implies(self.item is not None and self.item.label is not None and self.item.label != 0 and given(self.item.name), "
-                           "result == str(self.item.label) + (tab[len(str(self.item.label)):] if tab[len(str(self.item.label)):] != '' else ' ') "
-                           "+ self.item.name + ':' + str(self))",
+                           "squeeze(result) == squeeze(str(self.item.label) + (tab[len(str(self.item.label)):] if tab[len(str(self.item.label)):] != '' else ' ') "
+                           "+ self.item.name + ':' + str(self)))",
         "statement_text_is_last": "result.endswith(str(self))",
     },
     raises=[],
     serves=["C01", "C02"],
-    note="str(self) (the rule's tostr) is uninterpreted here; label and name come from the reader item (R3, R4)",
+    note="str(self) (the rule's tostr) is uninterpreted here; label and name come from the reader item (R3, R4); texts are compared "
+         "without their blanks (indentation and spacing are canonicalisations), the statement text itself comes last verbatim",
 )
 
 # --- U9: a block prints every child once, in order ----------------------------------------------------------
